@@ -675,7 +675,7 @@ def directed_slow_steps(ctx, txns, quick: bool, who: int = 0):
             # then a sample of the rest
             fixed = [c for c in mine if (c[1], c[2]) in ((1, nh), (2, nh))]
             rest = [c for c in mine if c not in fixed]
-            mine = fixed + ctx.rng.sample(rest, min(len(rest), 3))
+            mine = fixed + ctx.rng.sample(rest, min(len(rest), 2))
         combos += mine
     if not quick and len(combos) > 500:
         combos = ctx.rng.sample(combos, 500)
@@ -746,7 +746,7 @@ def run(ctx) -> None:
             runs += list(directed(ctx, txns, quick))
         elif ti == 3:
             # a pre-built OLD file adopted and committed at every point of a collection run
-            runs += list(directed(ctx, txns, quick, cap=70))
+            runs += list(directed(ctx, txns, quick, cap=55))
         if ti == 2:
             runs += list(directed_retry(ctx, txns, quick))
         if ti == 0:
